@@ -21,6 +21,7 @@ import (
 type Job struct {
 	Dir  string
 	Args []string
+	Env  map[string]string // extra environment for this run (in-process: set for the duration of the job)
 }
 
 // Result is what a run of the generator did, as seen from outside.
@@ -95,6 +96,7 @@ func clip(s string) string {
 // alone through the real CLI, and the worker is restarted.
 type Pool struct {
 	t       *Tools
+	batch   string // binary to run ("" = t.Batch)
 	workers chan *worker
 	n       int
 	// counters
@@ -125,7 +127,11 @@ func (t *Tools) NewPool(n int) *Pool {
 
 func (p *Pool) start() *worker {
 	sh := fmt.Sprintf("ulimit -v %d; exec \"$0\" serve", MemLimitKB)
-	cmd := exec.Command("/bin/sh", "-c", sh, p.t.Batch)
+	bin := p.t.Batch
+	if p.batch != "" {
+		bin = p.batch
+	}
+	cmd := exec.Command("/bin/sh", "-c", sh, bin)
 	cmd.Env = append(os.Environ(), "GOMAXPROCS=2")
 	cmd.SysProcAttr = &syscall.SysProcAttr{Setpgid: true}
 	in, _ := cmd.StdinPipe()
@@ -164,7 +170,7 @@ func (p *Pool) Run(j Job) Result {
 	start := time.Now()
 	if w != nil {
 		w.seq++
-		b, _ := json.Marshal(map[string]any{"id": w.seq, "dir": j.Dir, "args": j.Args})
+		b, _ := json.Marshal(map[string]any{"id": w.seq, "dir": j.Dir, "args": j.Args, "env": j.Env})
 		w.in.Write(b)
 		w.in.WriteByte('\n')
 		if err := w.in.Flush(); err == nil {
